@@ -18,14 +18,14 @@ def formulas(tier):
     f = [
         "y ~ x", "y ~ x + f", "y ~ f:x + g", "y ~ f*g", "y ~ 0 + g + x:g", "y ~ center(x) + f", "y ~ scale(x)", "y ~ scale(x):f + z",
         "y ~ poly(x, 2, raw=True)", "y ~ center(x):center(z)", "y ~ C(k) + x", "y ~ C(g, Sum)", "y ~ (x|g)", "y ~ (1|g) + (0 + f|g)", "y ~ (center(x)|g:f)",
-        "f ~ x", "g[t] ~ x + f", "y ~ I(x * z) + binary(f, 'a')", "y ~ x + offset(z)",
+        "f ~ x", "g[t] ~ x + f", "y ~ I(x * z) + binary(f, 'a')", "y ~ x + offset(z)", "y ~ I(x * 2)", "y ~ binary(f, 'a')",
     ]
     if tier != "quick":
         f += ["y ~ x*f*g", "y ~ standardize(z):g", "y ~ (x + z|g) + (1|f)", "y ~ T(g, 't') + S(f)", "y ~ h + x:h", "y ~ scale(center(x))", "y ~ (scale(x)|g)", "y ~ C(k, levels=lv):x"]
     return f
 
 
-TRANSFORMS_Q = ["perm:reverse", "perm:rotate", "perm:scramble", "index:shuffled", "index:dup", "index:str", "index:float", "cols:reversed", "unused:nan", "na+index:dup"]
+TRANSFORMS_Q = ["perm:reverse", "perm:rotate", "perm:scramble", "index:shuffled", "index:dup", "index:str", "index:float", "cols:reversed", "unused:nan", "unused:one", "na+index:dup"]
 
 
 def cases(tier):
@@ -160,7 +160,8 @@ def harness(env, case):
     elif kind == "unused":
         d2 = base.copy()
         d2.insert(0, "unused1", [float("nan") if i % 3 == 0 else 1.0 for i in range(n)])
-        d2["unused2"] = ["q"] * n
+        if arg != "one":
+            d2["unused2"] = ["q"] * n
         variants.append((d2, None))
     for d2, p in variants:
         try:
